@@ -73,7 +73,7 @@ def kind_weights(story=1.0, item=1.0, other=0.3, end=0.05):
 
 def fuzz_history(s, hidx, weights, steps=(5, 30), text='plain', timing='any', rich=True,
                  shape_weights=(0.78, 0.1, 0.08, 0.04), selfref=0.06, after_end=3, on_state=None,
-                 ro_kw=None):
+                 ro_kw=None, direct=0.0):
     rng = s.rng('hist', hidx)
     pool = gen.text_pool(text)
     ids = gen.Ids('F%d.' % hidx)
@@ -92,7 +92,10 @@ def fuzz_history(s, hidx, weights, steps=(5, 30), text='plain', timing='any', ri
         kind = weighted_kinds(rng, weights)
         msg = gen.rand_message(rng, state, kind, 100 + k, ids, pool=pool, timing=timing,
                                shape_weights=shape_weights, selfref=selfref, rich=rich)
-        ro, err, v, ev = s.step(ro, msg, {'history': hidx, 'step': k})
+        if direct and not state.completed and rng.random() < direct:
+            ro, err, v, ev = s.step_direct(ro, msg, {'history': hidx, 'step': k, 'direct': True})
+        else:
+            ro, err, v, ev = s.step(ro, msg, {'history': hidx, 'step': k})
         if ev is not None and ev.get('post_xml'):
             cur = ev['post_xml']
         if on_state:
@@ -373,3 +376,84 @@ def suite_workload(s, only_worker=None):
         for f in glob.glob(os.path.join(tmp, '*')):
             os.unlink(f)
         os.rmdir(tmp)
+
+
+# --------------------------------------------------------------------------
+# kind-pair histories: k1 k2 k1 k2 k1 on ONE running-order object, for every
+# ordered pair of kinds.  Aimed at state that survives between merges (caches,
+# memoised lookups, shared nodes): whatever k1 leaves behind is exercised again
+# by k1 after k2 has changed the running order.
+
+def pair_histories(s, kinds=None, rounds=5, text='plain', timing='any', on_state=None,
+                   shape_weights=(0.94, 0.03, 0.03, 0.0), tag='pair'):
+    kinds = kinds or [k for k in B.ALL_KINDS if k != 'roDelete']
+    idx = 0
+    for k1 in kinds:
+        for k2 in kinds:
+            idx += 1
+            if not s.mine(idx):
+                continue
+            rng = s.rng(tag, k1, k2)
+            pool = gen.text_pool(text)
+            ids = gen.Ids('Y%d.' % idx)
+            ro_txt = gen.rand_ro(rng, n_stories=rng.randint(3, 5), pool=pool, timing=timing,
+                                 meta_layout=rng.choice(['before', 'between', 'everywhere']))
+            ro = s.load(ro_txt)
+            cur = ro_txt
+            if on_state:
+                on_state(ro, cur, None)
+            for step in range(rounds):
+                kind = k1 if step % 2 == 0 else k2
+                try:
+                    state = Abs(cur)
+                except ET.ParseError:
+                    break
+                msg = gen.rand_message(rng, state, kind, 100 + step, ids, pool=pool, timing=timing,
+                                       shape_weights=shape_weights, selfref=0.0)
+                ro, err, v, ev = s.step(ro, msg, {'pair': (k1, k2), 'step': step})
+                if ev is not None and ev.get('post_xml'):
+                    cur = ev['post_xml']
+                if on_state:
+                    on_state(ro, cur, ev)
+    s.hist['pair_histories_total'] = idx
+
+
+# --------------------------------------------------------------------------
+# re-send after reorder: roStorySend X; a reorder that keeps the story count
+# (move / swap / 1:1 replace / EA move); roStorySend of every story - on ONE
+# running-order object.  Position lookups that survive between merges go stale
+# exactly here.
+
+def resend_after_reorder(s, nmax=4, layouts=('none', 'before', 'between')):
+    idx = 0
+    E = B.E
+
+    def send(x, tag):
+        return B.msg_doc('roStorySend', 7, story_ref=x, body=[E('p', 'resent ' + tag)],
+                         fields=[E('storySlug', 'resent ' + x), 'BODY'])
+    for n in range(2, nmax + 1):
+        S = STORY_NAMES[:n]
+        for layout in layouts:
+            ro_txt = gen.grid_ro(S, layout, pretty=False)
+            reorders = []
+            for a in S:
+                for b in S:
+                    if a != b:
+                        reorders.append(('roStoryMove', dict(ids=[a], target=b)))
+                        reorders.append(('EAStorySwap', dict(ids=[a, b])))
+                reorders.append(('roStoryMove', dict(ids=[a], target=B.BLANK)))
+                reorders.append(('EAStoryMove', dict(ids=[a], target=B.BLANK)))
+                reorders.append(('roStoryReplace', dict(target=a, carried=[gen.simple_story('R' + a, 1)])))
+            for first in S:
+                for kind, kw in reorders:
+                    idx += 1
+                    if not s.mine(idx):
+                        continue
+                    ro = s.load(ro_txt)
+                    ctx = {'resend-after-reorder': (first, kind)}
+                    ro, err, v, ev = s.step(ro, send(first, 'first'), ctx)
+                    ro, err, v, ev = s.step(ro, B.msg_doc(kind, 8, **kw), ctx)
+                    cur = ev['post_xml'] if ev else ro_txt
+                    for x in Abs(cur).story_ids:
+                        ro, err, v, ev = s.step(ro, send(x, 'again'), ctx)
+    s.hist['resend_after_reorder_cases'] = idx
